@@ -283,7 +283,7 @@ Definition proc_ok (p : proc) : Prop :=
                 /\ p_creds p = c
   end.
 
-Definition ev_ok (e : sevent) : Prop := match e with SHup _ k => G k | _ => True end.
+Definition ev_ok (e : sevent) : Prop := match e with SHup _ k | SUsr2 _ k => G k | _ => True end.
 
 Lemma kill_ok p : proc_ok p -> proc_ok (kill_proc p).
 Proof. unfold proc_ok. destruct p; cbn. auto. Qed.
@@ -362,7 +362,7 @@ Proof. intros mp k [HG H] Hr Hk. unfold proc_ok in *. destruct mp; cbn in *. sub
 
 Lemma step_ok : forall s e, Forall proc_ok s -> ev_ok e -> Forall proc_ok (step db s e).
 Proof.
-  intros s e Hs He. destruct e as [i|m k|m|m|m|m]; cbn [step].
+  intros s e Hs He. destruct e as [i|m k|m k|m|m|m]; cbn [step].
   - destruct (nth_error s i) as [p|] eqn:E; [|exact Hs].
     destruct (negb (is_master p) && p_alive p); [|exact Hs].
     assert (Hp : proc_ok p) by (rewrite Forall_forall in Hs; apply Hs; eapply nth_error_In; eauto).
@@ -378,13 +378,13 @@ Proof.
     { eapply live_master_set_nth; eauto; destruct mp; cbn in *; subst; auto. }
     destruct (spawn_n_ok (c_workers k) _ m H1 L1) as [H2 L2]. apply manage_ok; assumption.
   - destruct (nth_error s m) as [mp|] eqn:E; [|exact Hs].
-    destruct (live_master s m && negb (has_live_child_master s m)) eqn:Hm; [|exact Hs].
+    destruct (live_master s m && _) eqn:Hm; [|exact Hs].
     apply andb_true_iff in Hm. destruct Hm as [Hm _].
     destruct (live_master_inv s m Hm) as (mp' & E' & Hr & Ha). rewrite E in E'. inversion E'; subst mp'.
     assert (Hp : proc_ok mp) by (rewrite Forall_forall in Hs; apply Hs; eapply nth_error_In; eauto).
     apply spawn_n_ok.
     + apply Forall_app. split; [exact Hs|]. constructor; [|constructor].
-      destruct Hp as [HG Hc]. rewrite Hr in Hc. split; cbn; assumption.
+      destruct Hp as [HG Hc]. rewrite Hr in Hc. split; cbn; [exact He|exact Hc].
     + unfold live_master. rewrite nth_error_app2 by lia. rewrite Nat.sub_diag. reflexivity.
   - destruct (nth_error s m) as [mp|] eqn:E; [|exact Hs].
     destruct (live_master s m) eqn:Hm; [|exact Hs].
@@ -431,7 +431,7 @@ End Arbiter.
 (* ------------------------------------------------------------------------------------------ *)
 
 Definition good_cfg (k : cfg) : Prop := c_uid k <> 0 /\ c_gid k <> 0.
-Definition good_ev (e : sevent) : Prop := match e with SHup _ k => good_cfg k | _ => True end.
+Definition good_ev (e : sevent) : Prop := match e with SHup _ k | SUsr2 _ k => good_cfg k | _ => True end.
 
 Theorem every_worker_generation_identity : forall db c0 k evs,
     root_master c0 -> good_cfg k -> Forall good_ev evs ->
